@@ -136,7 +136,7 @@ def main():
         'setup_cmd': './setup.sh',
         'hooks': {
             'guard': 'SVGPATHTOOLS_VERIF',
-            'enable': 'no source hooks: the harness imports svgpathtools from /repo\'s working tree and wraps public methods from outside; SVGPATHTOOLS_VERIF=1 only enables the harness-side recorders',
+            'enable': 'no source hooks in /repo: checks import svgpathtools from /repo\'s working tree and wrap public methods from outside; SVGPATHTOOLS_VERIF=1 enables the harness-side pytest plugin harness/pytest_recorder.py (used by the C16 check when it runs the repository tests: PYTHONPATH=/verif pytest -p harness.pytest_recorder)',
             'baseline_off_cmd': BASE_OFF,
             'source_commits': [],
             'add_only': True,
